@@ -129,7 +129,7 @@ package transactions
 //@   requires [C19] inv: retryCfg(t)
 //@   guarded [C18] retryNumMutex: retryNum, State, Data
 //@   assigns t.State, t.Data, t.retryNum, t.timer, armed(t.timer)
-//@   ensures [C19] keeps_inv: retryInv(t)
+//@   ensures [C19,C16] keeps_inv: retryInv(t)
 //@   ensures [C19] budget_reset: t.retryNum == 0 && t.State == state && t.Data == data
 //@   ensures [C19] rearmed: fresh(t.timer) && armed(t.timer) && armedDelay(t.timer) == int64(t.retryDelay) && !armed(old(t.timer))
 
@@ -159,20 +159,20 @@ package transactions
 //@   guarded [C18] retryNumMutex: retryNum
 //@   assigns t.retryNum, t.timer, armed(t.timer), t.TransactionBase.err, closed(t.TransactionBase.done),
 //@      calls(t.TransactionBase.finally), calls(t.retryCallback)
-//@   ensures [C19] keeps_inv: retryInv(t)
+//@   ensures [C19,C16] keeps_inv: retryInv(t)
 //@   ensures [C18] nothing_after_done: old(finished(t.TransactionBase)) ==> calls(t.retryCallback) == old(calls(t.retryCallback)) &&
 //@      t.retryNum == old(t.retryNum) && t.TransactionBase.err == old(t.TransactionBase.err) && t.timer == old(t.timer) &&
 //@      calls(t.TransactionBase.finally) == old(calls(t.TransactionBase.finally))
-//@   ensures [C19] retry_once: !old(finished(t.TransactionBase)) && old(t.retryNum) < t.retryCount ==>
+//@   ensures [C19,C16] retry_once: !old(finished(t.TransactionBase)) && old(t.retryNum) < t.retryCount ==>
 //@      calls(t.retryCallback) == old(calls(t.retryCallback)) + 1
 //@   ensures [C19] retry_same_data: !old(finished(t.TransactionBase)) && old(t.retryNum) < t.retryCount ==> lastarg(t.retryCallback) == old(t.Data)
-//@   ensures [C19] retry_counted: !old(finished(t.TransactionBase)) && old(t.retryNum) < t.retryCount ==> t.retryNum == old(t.retryNum) + 1
+//@   ensures [C19,C16] retry_counted: !old(finished(t.TransactionBase)) && old(t.retryNum) < t.retryCount ==> t.retryNum == old(t.retryNum) + 1
 //@   ensures [C19] rearm_or_fail: !old(finished(t.TransactionBase)) && old(t.retryNum) < t.retryCount ==>
 //@      (finished(t.TransactionBase) && !armed(t.timer) && t.TransactionBase.err != nil) ||
 //@      (!finished(t.TransactionBase) && armed(t.timer) && armedDelay(t.timer) == int64(t.retryDelay))
-//@   ensures [C19] budget_no_callback: !old(finished(t.TransactionBase)) && old(t.retryNum) >= t.retryCount ==>
+//@   ensures [C19,C16] budget_no_callback: !old(finished(t.TransactionBase)) && old(t.retryNum) >= t.retryCount ==>
 //@      calls(t.retryCallback) == old(calls(t.retryCallback))
-//@   ensures [C19] budget_fails: !old(finished(t.TransactionBase)) && old(t.retryNum) >= t.retryCount ==>
+//@   ensures [C19,C16] budget_fails: !old(finished(t.TransactionBase)) && old(t.retryNum) >= t.retryCount ==>
 //@      t.TransactionBase.err == ErrNoMoreRetries && finished(t.TransactionBase) && !armed(t.timer)
 //@   ensures [C18] stop_after_fail: finished(t.TransactionBase) && !old(finished(t.TransactionBase)) ==> !armed(t.timer)
 
